@@ -71,8 +71,8 @@ PROPS = {
     },
     "C10": {
         "module": "Cdecao.Props.C10",
-        "extra_modules": ["Cdecao.Props.Main"],
-        "theorems": ["Props.C10_node", "Props.C10_tree", "Props.C10_cli", "Props.C10_cde", "Props.C10_main", "Props.C10_main_threads", "Props.main_skeleton_tie"],
+        "extra_modules": ["Cdecao.Props.Main", "Cdecao.Props.PanicTie"],
+        "theorems": ["Props.panic_sites_tie", "Props.C10_node", "Props.C10_tree", "Props.C10_cli", "Props.C10_cde", "Props.C10_main", "Props.C10_main_threads", "Props.main_skeleton_tie"],
         "streams": ["node", "node-rooms", "solve", "cli-simple", "cli-main"],
     },
     "C11": {
@@ -99,8 +99,8 @@ PROPS = {
     },
     "C15": {
         "module": "Cdecao.Props.C15",
-        "extra_modules": ["Cdecao.Props.Main"],
-        "theorems": ["Props.main_skeleton_tie", "Props.C15_main_refused", "Props.main_front_codes", "Props.C15_main_simple", "Props.C15_main_cde", "Props.C15_accept_sound", "Props.C15_missing_member", "Props.C15_rooms_str", "Props.C15_rooms_str_refuse", "Props.C15_rooms_file",
+        "extra_modules": ["Cdecao.Props.Main", "Cdecao.Props.PanicTie"],
+        "theorems": ["Props.panic_sites_tie", "Props.main_skeleton_tie", "Props.C15_main_refused", "Props.main_front_codes", "Props.C15_main_simple", "Props.C15_main_cde", "Props.C15_accept_sound", "Props.C15_missing_member", "Props.C15_rooms_str", "Props.C15_rooms_str_refuse", "Props.C15_rooms_file",
                      "Props.C15_rooms_file_refuse", "Props.C15_rooms_kind", "Props.splitComma_spec", "Props.parseUsize_shape"],
         "streams": ["cli-malformed", "cdedb-read", "cli-main"],
     },
@@ -122,7 +122,7 @@ PROPS = {
     },
     "C19": {
         "module": "Cdecao.Props.C19",
-        "extra_modules": ["Cdecao.Props.EngineTie"],
+        "extra_modules": ["Cdecao.Props.EngineTie", "Cdecao.Props.PanicTie"],
         "theorems": ["Props.C19_no_hang", "Props.C19_bounded_work", "Props.C19_dead_absorbing", "Props.C19_failure_reported", "Props.C19_join_not_stuck",
                      "Props.C19_outcome_final", "Props.C19_panicked_pos", "Props.C19_terminates", "Props.C19_terminates_dead", "Props.C19_terminates_dying",
                      "Props.C19_terminates_verdict", "Props.C19_terminates_no_panic"],
